@@ -23,10 +23,9 @@ _PARSERS = {}
 
 
 def parser_for(include_intercept=True, flags=("TWOSIDED", "MULTIPART")):
-    k = (include_intercept, tuple(flags))
-    if k not in _PARSERS:
-        _PARSERS[k] = DefaultFormulaParser(include_intercept=include_intercept, feature_flags=set(flags))
-    return _PARSERS[k]
+    """a FRESH parser per call: every execution must be a function of its own choices only (a parser object that served earlier executions
+    would carry whatever state a faulty library keeps on it into later ones and make replays diverge)"""
+    return DefaultFormulaParser(include_intercept=include_intercept, feature_flags=set(flags))
 
 
 def terms_to_plain(x):
